@@ -14,6 +14,11 @@ pub struct RaftRequestRoute {}
 pub struct Subscriber { vx: u8 }
 #[verifier::external_body]
 pub struct NamespaceIndex { vx: u8 }
+impl NamespaceIndex {
+    /// the listing index (proved in unit serviceindex against its own view); here only a handle whose effect is not specified
+    #[verifier::external_body]
+    pub fn remove_service(&mut self, key: &ServiceKey) -> (r: bool) { unimplemented!() }
+}
 
 /// A-KEY
 pub broadcast axiom fn axiom_naming_key_model()
